@@ -110,16 +110,20 @@ var specs = map[string]*CheckSpec{
 			{Name: "c06.serial", Count: 6000},
 			{Name: "c06.mixed", Count: 6000},
 			{Name: "c06.sweep", Sweep: &SweepSpec{Files: []string{"atp/client.go", "atp/server.go"}, Occ: []int{1, 2, 3}, History: 4, Stride: 1}},
+			{Name: "c06.peer", Count: 4000},
+			{Name: "c06.peerv1", Count: 1000},
 		},
 		Thorough: []Batch{
 			{Name: "c06.serial", Count: 150000},
 			{Name: "c06.mixed", Count: 250000},
 			{Name: "c06.sweep", Sweep: &SweepSpec{Files: []string{"atp/client.go", "atp/server.go", "schema/step.go", "schema/schema.go", "schema/signal.go"}, Occ: []int{1, 2, 3, 4, 5, 6}, History: 24, Stride: 1}},
 			{Name: "c06.sweep", Count: 60000, Sweep: &SweepSpec{Files: []string{"atp/client.go", "atp/server.go"}, Occ: []int{1, 2, 3}, History: 8, Pairs: true}},
+			{Name: "c06.peer", Count: 200000},
+			{Name: "c06.peerv1", Count: 40000},
 		},
 		Rule: "each run = one seeded session (real client vs real server over simulated pipes) under one scheduling strategy; distinct = distinct schedule signature (hash of the sequence of context switches kind@site->kind@site); non-trivial = at least one preemption of a runnable goroutine",
 		Real: atpReal, Stub: commonStub,
-		Assume: []string{"the peer is the SDK's own server (healthy by construction)", "harness drains signalsFromStep and closes signalsToStep as the API documentation asks", "scheduling delays are logical (no fake time passes while a goroutine is held)"},
+		Assume: []string{"the peer is the SDK's own server (healthy by construction) or, in the c06.peer batches, a scripted protocol-conforming v3/v1 peer that also emits signals, non-fatal errors and unknown message IDs", "harness drains signalsFromStep and closes signalsToStep as the API documentation asks", "scheduling delays are logical (no fake time passes while a goroutine is held)"},
 	},
 	"C07": {
 		ID: "C07", Flavour: "atp", Level: "fault_enumeration",
@@ -141,10 +145,33 @@ var specs = map[string]*CheckSpec{
 			{Name: "c07.anydata", Count: 20000},
 			{Name: "c07.crash", Count: 400, Extra: map[string]any{"every_byte": true}},
 		},
-		Rule: "each run = the real RunATPServer with a generated plugin against a scripted client drawn from a grammar of valid and invalid behaviour, under one seeded schedule; crash batches re-run a base script with end-of-input / read error / garbage at every enumerated byte offset of the client stream (thorough: every offset) plus output-side faults; distinct = schedule signature x fault point; non-trivial = a fault fired or a runnable goroutine was preempted",
-		Real: []string{"atp server (atp/server.go)", "schema package incl. step/signal plumbing", "fxamacker/cbor"},
-		Stub: append([]string{"atp client -> scripted client (canonical CBOR encoder of the harness)"}, commonStub...),
+		Rule:   "each run = the real RunATPServer with a generated plugin against a scripted client drawn from a grammar of valid and invalid behaviour, under one seeded schedule; crash batches re-run a base script with end-of-input / read error / garbage at every enumerated byte offset of the client stream (thorough: every offset) plus output-side faults; distinct = schedule signature x fault point; non-trivial = a fault fired or a runnable goroutine was preempted",
+		Real:   []string{"atp server (atp/server.go)", "schema package incl. step/signal plumbing", "fxamacker/cbor"},
+		Stub:   append([]string{"atp client -> scripted client (canonical CBOR encoder of the harness)"}, commonStub...),
 		Assume: []string{"accepted work-start = well-formed envelope of type 1 with non-empty run and step IDs and decodable body, as decided by the harness's reference decoder on the bytes actually delivered", "a panic in any server goroutine is process death (descriptors closed)"},
+	},
+	"C08": {
+		ID: "C08", Flavour: "atp", Level: "fault_enumeration",
+		Quick: []Batch{
+			{Name: "c08.v3", Count: 4000},
+			{Name: "c08.v1", Count: 2000},
+			{Name: "c08.hello", Count: 1500},
+			{Name: "c08.fatal", Count: 2500},
+			{Name: "c08.crash", Count: 16, Extra: map[string]any{"every_byte": false, "stride": 96}},
+			{Name: "c08.crashv1", Count: 8, Extra: map[string]any{"every_byte": false, "stride": 96}},
+		},
+		Thorough: []Batch{
+			{Name: "c08.v3", Count: 200000},
+			{Name: "c08.v1", Count: 60000},
+			{Name: "c08.hello", Count: 40000},
+			{Name: "c08.fatal", Count: 100000},
+			{Name: "c08.crash", Count: 64, Extra: map[string]any{"every_byte": true}},
+			{Name: "c08.crashv1", Count: 16, Extra: map[string]any{"every_byte": true}},
+		},
+		Rule:   "each run = the real ATP client against a scripted server playing a generated v3 or v1 transcript (hello with a real self-described schema, work-done, signals, non-fatal / step-fatal / server-fatal errors, unknown message IDs) under one seeded schedule, with the server->client stream cut (EOF), failing (read error), garbled or stalled-then-ended at a byte offset and, in a fraction of runs, the client->server writes failing independently; crash batches first run the base transcript fault-free and then re-run it with each fault kind at every message boundary +-1 and a stride (thorough: every byte offset); distinct = schedule signature x fault point; non-trivial = a fault fired or a runnable goroutine was preempted",
+		Real:   []string{"atp client (atp/client.go)", "schema.UnserializeSchema on the received hello", "fxamacker/cbor"},
+		Stub:   append([]string{"atp server -> scripted server (reactive transcript, canonical CBOR)"}, commonStub...),
+		Assume: []string{"premise: the server stream ends, errors or garbles; runs in which only the client's writes failed while the server stream stayed intact are excluded and counted", "a success result is legitimate iff a well-formed work-done for that run ID is present in the bytes actually delivered, as decided by the reference decoder"},
 	},
 	"C05": {
 		ID: "C05", Flavour: "atp", Level: "exploration",
@@ -455,6 +482,9 @@ func doCheck(id, tier string) int {
 			chunks = count/20 + 1
 		}
 		per := (count + chunks - 1) / chunks
+		if strings.Contains(b.Name, "crash") {
+			per = 1 // one base execution (with all its crash points) per unit of work
+		}
 		for c := uint64(0); c*per < count; c++ {
 			from, to := c*per, (c+1)*per
 			if to > count {
